@@ -434,6 +434,17 @@ def subslice_composition(ctx, rule):
                 problems.append('the new step is not composed of both steps')
             if not {(outer, 'start'), (outer, 'step'), (sub, 'start')} <= s_:
                 problems.append('the new start is not the outer start plus the sub-slice start times the outer step')
+            # the extent of the sub-slice counts elements of the outer selection: it enters the new stop multiplied by
+            # the outer step (start + length * t); added unscaled it is only right for step 1
+            if (sub, 'stop') in e_ and (outer, 'step') in e_:
+                scaled = False
+                for x in deep_walk(b.args[1]):
+                    if isinstance(x, ast.BinOp) and isinstance(x.op, ast.Mult):
+                        dl, dr = deps(x.left, set()), deps(x.right, set())
+                        if ((outer, 'step') in dl and (sub, 'stop') in dr) or ((outer, 'step') in dr and (sub, 'stop') in dl):
+                            scaled = True
+                if not scaled:
+                    problems.append("the sub-slice's extent enters the new stop without being multiplied by the outer step")
             ctx.ob(rule, ctx.model.func('Slicer.__init__'), ex.line, f"{fi.qualname}: a slice of a slice addresses start + a*step, with step t*k",
                    not problems, fact=f"start <- {sorted(s_)}; stop <- {sorted(e_)}; step <- {sorted(k_)}",
                    why='; '.join(problems) + ': a stepped sub-slice addresses the wrong rows / columns',
